@@ -38,7 +38,7 @@ type windowCase struct {
 }
 
 func isRewritePoint(name string) bool {
-	return strings.HasPrefix(name, "rewrite.") || strings.HasPrefix(name, "pre.") || strings.HasPrefix(name, "aof.trunc") || name == "aof.synced"
+	return strings.HasPrefix(name, "rewrite.") || strings.HasPrefix(name, "pre.") || strings.HasPrefix(name, "aof.trunc")
 }
 
 func runOps(s *sut.Server, ops []op, embDB *int) {
